@@ -12,11 +12,11 @@ open IncrVerif.Proofs.ExpertH IncrVerif.Proofs.EffH IncrVerif.Proofs.DriverH Inc
 
 /-! ## old nodes keep their virtual node -/
 
-theorem xRec_pkc_lt (fam a0 : Nat) (s : State) {e : Nat} (h : e < s.experts.size) :
+theorem xRec_pkc_lt (fam : FamCut) (a0 : Nat) (s : State) {e : Nat} (h : e < s.experts.size) :
     xRec (pkCreated fam a0 s).experts e = xRec s.experts e := by
   unfold xRec; rw [pkc_expert_lt fam a0 s h]
 
-theorem pkRec_pkc_lt (fam a0 : Nat) (s : State) {op : Nat} (h : op < s.perkeys.size) :
+theorem pkRec_pkc_lt (fam : FamCut) (a0 : Nat) (s : State) {op : Nat} (h : op < s.perkeys.size) :
     pkRec (pkCreated fam a0 s) op = pkRec s op := by
   unfold pkRec
   rw [pkc_perkeys, Array.getElem?_push, if_neg (by omega)]
@@ -25,7 +25,7 @@ theorem pkRec_pkc_lt (fam a0 : Nat) (s : State) {op : Nat} (h : op < s.perkeys.s
 def KindIn (s : State) (k : Kind) : Prop :=
   ∀ e, k = .expert e → e < s.experts.size ∧ ∀ op o, (xRec s.experts e).pk = some (op, o) → op < s.perkeys.size
 
-theorem vNode_pkc_old (fam a0 : Nat) (s : State) (nd : Node) (h : KindIn s nd.kind) :
+theorem vNode_pkc_old (fam : FamCut) (a0 : Nat) (s : State) (nd : Node) (h : KindIn s nd.kind) :
     vNode (pkCreated fam a0 s) nd = vNode s nd := by
   rcases nd with ⟨k⟩
   cases k <;> try rfl
@@ -52,7 +52,7 @@ theorem kindIn_of {env : Env} {s : State} (F : PFrag env s) (R : RecsOK s) {m : 
   · rw [hpk] at h1; cases h1; exact hlt'
   · rw [hpk] at h1; cases h1; exact hlt'
 
-theorem map_vNode_pkc {env : Env} (fam a0 : Nat) {s : State} (F : PFrag env s) (R : RecsOK s) :
+theorem map_vNode_pkc {env : Env} (fam : FamCut) (a0 : Nat) {s : State} (F : PFrag env s) (R : RecsOK s) :
     s.nodes.map (vNode (pkCreated fam a0 s)) = s.nodes.map (vNode s) := by
   apply Array.map_congr_left
   intro nd hnd
@@ -63,13 +63,13 @@ theorem map_vNode_pkc {env : Env} (fam a0 : Nat) {s : State} (F : PFrag env s) (
 
 /-! ## the new virtual nodes -/
 
-theorem vNode_pkc_0 (fam a0 : Nat) (s : State) :
+theorem vNode_pkc_0 (fam : FamCut) (a0 : Nat) (s : State) :
     vNode (pkCreated fam a0 s) { kind := .map fnIdent [a0], createdIn := .top } = newNode (.map fnIdent [a0]) := by
   simp only [vNode, vKind, forced, newNode]
   rw [if_neg (by decide)]
   rfl
 
-theorem vNode_pkc_1 (fam a0 : Nat) (s : State) :
+theorem vNode_pkc_1 (fam : FamCut) (a0 : Nat) (s : State) :
     vNode (pkCreated fam a0 s) { kind := .expert s.experts.size, createdIn := .top } =
       newNode (.fold xAsm (asmInit [(0, 0)]) [s.nodes.size + 2]) := by
   have h1 : xRec (pkCreated fam a0 s).experts s.experts.size = pkNewRec s := xRec_some (pkc_expert_new fam a0 s)
@@ -79,21 +79,21 @@ theorem vNode_pkc_1 (fam a0 : Nat) (s : State) :
   simp only [pkNewRec, h2, pkNewOp, tagsOf, List.map, List.find?]
   rfl
 
-theorem vNode_pkc_2 (fam a0 : Nat) (s : State) :
+theorem vNode_pkc_2 (fam : FamCut) (a0 : Nat) (s : State) :
     vNode (pkCreated fam a0 s) { kind := .map (fnPerKey + s.perkeys.size) [s.nodes.size], createdIn := .top } =
       newNode (.map fLc [s.nodes.size]) := by
   simp only [vNode, vKind, forced, newNode]
   rw [if_pos (Nat.le_add_right _ _)]
   rfl
 
-theorem vNode_pkc_3 (fam a0 : Nat) (s : State) :
+theorem vNode_pkc_3 (fam : FamCut) (a0 : Nat) (s : State) :
     vNode (pkCreated fam a0 s) { kind := .map fnIdent [s.nodes.size + 1], createdIn := .top } =
       newNode (.map fnIdent [s.nodes.size + 1]) := by
   simp only [vNode, vKind, forced, newNode]
   rw [if_neg (by decide)]
   rfl
 
-theorem V_pkc_nodes {env : Env} (fam a0 : Nat) {s : State} (F : PFrag env s) (R : RecsOK s) :
+theorem V_pkc_nodes {env : Env} (fam : FamCut) (a0 : Nat) {s : State} (F : PFrag env s) (R : RecsOK s) :
     (V (pkCreated fam a0 s)).nodes =
       ((((V s).nodes.push (newNode (.map fnIdent [a0]))).push
         (newNode (.fold xAsm (asmInit [(0, 0)]) [s.nodes.size + 2]))).push
